@@ -149,6 +149,49 @@ def relayout_dense(text):
     return out
 
 
+def layout_zoo():
+    """small programs that contain every bracketed / comma-separated construct of the grammar at least once:
+    1-tuples and empty tuples in expression, pattern and type position, nested parentheses, empty and
+    non-empty arrays and lists, calls with 0 / 1 / 3 arguments, every call form with `::<..>` arguments,
+    block and single-expression match arms"""
+    from ..observe import observe, Fresh
+    U8, U4 = U(8), U(4)
+    out = []
+    one = TUP(U8)
+    out.append(("one-tuple", Program([], Block([
+        Let("t", one, TupleE([Wit("X", U8)])),
+        Let(PTuple([PVar("y")]), one, Var("t", one)),
+        Let("n", TUP(one, ARR(U8, 2)), TupleE([TupleE([Var("y", U8)]), ArrayE([Var("y", U8), Lit(U8, 1)], U8)])),
+        Let(PTuple([PTuple([PVar("z")]), PArray([PIgnore(), PVar("w")])]), TUP(one, ARR(U8, 2)), Var("n", TUP(one, ARR(U8, 2)))),
+    ] + observe(TupleE([Var("z", U8), Var("w", U8)]), TUP(U8, U8), "E", Fresh("o"))))))
+    out.append(("parens-and-empties", Program([], Block([
+        Let("a", U8, Paren(Paren(Wit("X", U8)))),
+        Let("u", UNIT, TupleE([])),
+        Let("e", ARR(U8, 0), ArrayE([], U8)),
+        Let("l", LIST(one, 4), ListE([TupleE([Var("a", U8)]), Paren(TupleE([Paren(Lit(U8, 7))]))], one, 4)),
+        Let("k", LIST(U8, 2), ListE([], U8, 2)),
+        Let("o", EITHER(UNIT, one), RightE(TupleE([Var("a", U8)]), UNIT)),
+    ] + observe(Var("l", LIST(one, 4)), LIST(one, 4), "E1", Fresh("o")) + observe(Var("o", EITHER(UNIT, one)), EITHER(UNIT, one), "E2", Fresh("p"))))))
+    f0 = FnDef("zero", [], U8, Block([], Lit(U8, 3)))
+    f1 = FnDef("single", [("x", one)], U8, Block([Let(PTuple([PVar("v")]), one, Var("x", one))], Var("v", U8)))
+    f3 = FnDef("three", [("a", U8), ("b", one), ("c", UNIT)], U8, Block([], JetCall("xor_8", [Var("a", U8), Call(f1, [Var("b", one)])], U8)))
+    step = FnDef("step", [("e", one), ("acc", U8)], U8, Block([], JetCall("xor_8", [Call(f1, [Var("e", one)]), Var("acc", U8)], U8)))
+    body = FnDef("body", [("acc", U8), ("ctx", one), ("i", U(1))], EITHER(one, U8), Block([], Match(
+        JetCall("eq_8", [Var("acc", U8), Call(f1, [Var("ctx", one)])], BOOL),
+        Arm("true", LeftE(TupleE([Var("acc", U8)]), U8)), Arm("false", RightE(JetCall("complement_8", [Var("acc", U8)], U8), one)))))
+    out.append(("calls-and-generics", Program([f0, f1, f3, step, body], Block([
+        Let("a", U8, Call(f3, [Call(f0, []), TupleE([Wit("X", U8)]), TupleE([])])),
+        Let("b", U8, Fold(step, 4, ListE([TupleE([Var("a", U8)]), TupleE([Wit("Y", U8)])], one, 4), Call(f0, []))),
+        Let("c", EITHER(one, U8), ForWhile(body, Var("b", U8), TupleE([Wit("Z", U8)]))),
+        Let("d", U8, Cast(TupleE([Lit(U4, 1), Lit(U4, 2)]), U8)),
+        Let("g", BOOL, IsNone(Wit("O", OPT(one)))),
+        Let("h", one, UnwrapLeft(Var("c", EITHER(one, U8)))),
+        Let("i", one, Unwrap(SomeE(Var("h", one)))),
+        ExprStmt(Match(Var("g", BOOL), Arm("false", Block([ExprStmt(Assert(JetCall("some_8", [Var("d", U8)], BOOL)))])), Arm("true", TupleE([])))),
+    ] + observe(Var("i", one), one, "E", Fresh("o"))))))
+    return out
+
+
 def cases(tier, seed):
     rng = random.Random(seed)
     base = [c for c in c01.cases("quick", seed) if not c.mut and not c.expect_reject]
@@ -179,6 +222,21 @@ def cases(tier, seed):
         out.append(E.Case("rename-%d-%s" % (i, c.cid), p2, text=text, validate=(i % 3 == 0),
                           tags={"variant": tag, "from": c.cid, "seed": seed,
                                 "names": sorted(set(list(maps["var"].values()) + list(maps["fn"].values())))[:8]}))
+    # layout zoo: every bracketed construct, in all layouts (the renaming is applied too)
+    for name, prog in layout_zoo():
+        names = collect_names(prog)
+        for v in range(5):
+            maps = make_maps(names, random.Random(seed * 31 + v))
+            p2 = rename(prog, maps)
+            text = None
+            if v == 1:
+                p2 = parenthesise(p2)
+            elif v == 3:
+                text = relayout(program_text(p2), rng)
+            elif v == 4:
+                text = relayout_dense(program_text(p2))
+            out.append(E.Case("zoo-%s-layout%d" % (name, v), p2, text=text, validate=True,
+                              tags={"variant": ["renamed", "parenthesised", "renamed", "comments/whitespace", "whitespace at every bracket and comma"][v], "zoo": name, "seed": seed}))
     return out
 
 
